@@ -219,6 +219,16 @@ def gen_jobs(tier, seed, env_text):
                 tupsh.append(U_(Ty("tuple", "", []), *[Ty("tuple", "", [first] + [rest] * i) for i in range(n)]))
                 tupsh.append(U_(*[Ty("tuple", "", [first] * (i + 1)) for i in range(n - 1)], Ty("tuple", "", [first, rest])))
     add_types("more tuple shapes than a union may have members, element classes related by inheritance", tupsh, base, rotations=True)
+    # what one rewriter produces is the next one's input: homogeneous tuple shapes collapse to Tuple[V, ...], which every
+    # later link of a chain traverses; and Tuple[V, ...] handed to each rewriter directly, bare and inside other types
+    hom = [U_(*[Ty("tuple", "", [INT_] * i) for i in range(lo, hi)]) for lo, hi in ((0, 7), (1, 7), (0, 4), (1, 4))]
+    hom += [U_(*[Ty("tuple", "", [STR_] * i) for i in range(0, 7)]), Ty("list", "", [hom[0]]), Ty("dict", "", [STR_, hom[2]])]
+    add_types("homogeneous tuple shapes through chains in which another rewriter follows RewriteLargeUnion", hom,
+              base + ["RLU2+RG", "RLU2+REC", "RLU2+RCD", "RLU2+MSCB", "RLU2+NOOP", "RLU5+RG", "RLU5+REC", "RLU2+RLU5"], rotations=True)
+    tv = Ty("tuplevar", "", [INT_])
+    tvs = [tv, Ty("list", "", [tv]), Ty("dict", "", [STR_, tv]), U_(tv, NONE_), U_(tv, Ty("list", "", [ANY_]), Ty("list", "", [INT_])),
+           Ty("tuple", "", [tv, INT_]), Ty("tuplevar", "", [U_(INT_, STR_, FLOAT_)]), Ty("iterator", "", [tv]), Ty("generator", "", [tv, NONE_, NONE_])]
+    add_types("Tuple[V, ...] as INPUT of every rewriter, bare and inside other types", tvs, base)
     if tier == "quick":
         add_types("t1small: atoms, containers, all 2-unions (exhaustive)", t1small, base)
         add_types("t1small x all ordered pairs of rewriters (sampled types)", rng.sample(t1small, 300), pairs)
